@@ -155,3 +155,17 @@ package stats
 //@        latestStats.RemoteOutboundRTPStreamStats.PacketsSent == uint64(as(incoming.pkts[0], "*rtcp.SenderReport").PacketCount)
 //@        && latestStats.RemoteOutboundRTPStreamStats.BytesSent == uint64(as(incoming.pkts[0], "*rtcp.SenderReport").OctetCount)
 //@        && latestStats.RemoteOutboundRTPStreamStats.ReportsSent == old(latestStats.RemoteOutboundRTPStreamStats.ReportsSent) + 1
+//@
+//@ # ---- interceptor glue (properties C01, C02): every closure forwards exactly once, unchanged, and passes the result through
+//@ func (*Interceptor).BindLocalStream$1
+//@   modifies *
+//@   ensures forwarded_once: calls("writer.Write") == 1 && callarg("writer.Write", 0) == header && callarg("writer.Write", 1) == payload && callarg("writer.Write", 2) == attributes
+//@   ensures result_passed: result0 == callres("writer.Write", 0) && result1 == callres("writer.Write", 1)
+//@
+//@ func (*Interceptor).BindRemoteStream$1
+//@   modifies *
+//@   ensures read_once: calls("reader.Read") == 1 && callarg("reader.Read", 0) == bytes && callarg("reader.Read", 1) == attributes
+//@   ensures read_error_returned: callres("reader.Read", 2) != nil ==> result0 == 0 && result2 == callres("reader.Read", 2)
+//@   ensures same_length: result2 == nil ==> result0 == callres("reader.Read", 0)
+//@   ensures failed_read_not_recorded: callres("reader.Read", 2) != nil ==> calls("recorder.QueueIncomingRTP") == 0
+//@   ensures recorded_once: result2 == nil ==> calls("recorder.QueueIncomingRTP") == 1
